@@ -289,4 +289,23 @@ theorem dvs_change_only_on_request (st : St) (op : SOp) (h1 : op ≠ .autoUpdate
   | updQErrWsub s => simp [invalStage] at hiv
   | updUErrWsub s => simp [invalStage] at hiv
 
+theorem ceOpt_modCE_self (st : St) (k : Key) (f : CE → CE) : (st.modCE k f).ce? k = (st.ce? k).map f := by
+  unfold St.ce? St.modCE St.modSub
+  simp only [getElem?_modAt, if_true]
+  cases st.subs[k.1]? with
+  | none => rfl
+  | some sb => simp [getElem?_modAt]
+
+theorem ceOpt_mapCE (st : St) (f : Key → CE → CE) (k : Key) : (st.mapCE f).ce? k = (st.ce? k).map (f k) := by
+  unfold St.ce? St.mapCE
+  simp only [getElem?_mapI]
+  cases st.subs[k.1]? with
+  | none => rfl
+  | some sb => simp [getElem?_mapI]
+
+theorem getElemOpt_setSlot (l : List (Option St)) (k j : Nat) (o : Option St) (h : j ≠ k) :
+    (setSlot l k o)[j]? = l[j]? := by
+  unfold setSlot; rw [getElem?_modAt, if_neg h]
+
+
 end C18
